@@ -1526,10 +1526,10 @@ def judge_values(nodes, obs):
 
     def length_expected(v, own_fs, root_fs):
         val, u = Fraction(v[0]), v[1]
+        if u == '%':
+            return ('pct', val)      # percentages are kept, 0% included (they are resolved at layout time)
         if val == 0:
             return ('px', Fraction(0))
-        if u == '%':
-            return ('pct', val)
         if u in ABS:
             return ('px', val * ABS[u])
         return ('px', val * (own_fs if u == 'em' else root_fs))
@@ -1874,12 +1874,19 @@ def run_corpus(run, items, outs):
 def check(run):
     rng = random.Random(run.seed * 7919 + 6)
     thorough = run.tier == 'thorough'
-    common.prove(run, 'C06', ['model/C06Judge.vo', 'proofs/C06_examples.vo'])
+    common.prove(run, 'C06', ['model/C06Judge.vo', 'proofs/C06_examples.vo', 'proofs/C06_gen_length.vo',
+                               'proofs/C06_gen_font_size.vo', 'proofs/C06_gen_tuples.vo'])
     run.trusted += ['Coq 8.16.1 kernel (coqc); vm_compute for the cases.v evaluation',
                     'cssselect2 / tinycss2 / tinyhtml5 (outside the repository): selector matching, specificity, '
                     'document parsing used by the reference cascade; cross-checked by an own matcher',
                     'harness reference cascade (Python sort key) and the value-id encoding of declared values']
-    run.assumptions += ['hand models (C06Cascade/C06Inherit/C06Values) are tied by correspondence, not by the translator',
+    run.assumptions += ['hand models C06Cascade / C06Inherit and font_weight of C06Values are tied by '
+                        'correspondence; declaration_precedence, evaluate_media_query, length, pixel_length, '
+                        'length_pixels_only, length_tuple, length_or_percentage_tuple, line_height, font_size are regenerated by the '
+                        'translator and proved '
+                        'equal to their models',
+                        'character_ratio(style, "x" | "0") (Pango) is an oracle in the theorems about the regenerated '
+                        'length: any two functions of the style',
                         'cssselect2 Matcher.match returns the matches sorted by (specificity, order) with distinct orders '
                         '(library contract; the render streams would show a deviation)',
                         'var() pending values, text-decoration propagation, `page`, custom properties: not modelled (C07)',
